@@ -346,6 +346,20 @@ class PointsTo:
                 if isinstance(par, ast.For) and isinstance(par.target, ast.Name) and par.target.id == key.id:
                     bl = [("iter", par.iter)]
                     break
+                if isinstance(par, ast.For) and isinstance(par.target, (ast.Tuple, ast.List)) and any(isinstance(t, ast.Name) and t.id == key.id for t in par.target.elts):
+                    # for flag, key, value in ((True, "comment", comment), ...): the column of the table the name stands for
+                    col = [i for i, t in enumerate(par.target.elts) if isinstance(t, ast.Name) and t.id == key.id][0]
+                    table = par.iter
+                    if isinstance(table, ast.Name):
+                        tb = self.res.bindings(fn).get(table.id, [])
+                        if len(tb) == 1 and tb[0][0] == "value":
+                            table = tb[0][1]
+                        elif not tb and fn.module is not None and len(fn.module.assigns.get(table.id, [])) == 1:
+                            table = fn.module.assigns[table.id][0]
+                    if isinstance(table, (ast.Tuple, ast.List)) and table.elts and all(isinstance(r, (ast.Tuple, ast.List)) and len(r.elts) == len(par.target.elts) for r in table.elts):
+                        cells = [const_str(r.elts[col]) for r in table.elts]
+                        return cells if all(c is not None for c in cells) else None
+                    return None
                 par = self.prog.parent.get(par)
             out = []
             for w, p_ in bl:
@@ -611,6 +625,8 @@ class PointsTo:
             for t in n.targets:
                 if isinstance(t, ast.Subscript):
                     self._insertion(n, fn, t.value, t.slice, None, "del")
+        elif isinstance(n, (ast.For, ast.comprehension)) and self._table_loop(n, fn, mod):
+            pass
         elif isinstance(n, (ast.For, ast.comprehension)):
             elems = set()
             for o in self.pts(n.iter, fn, mod):
@@ -692,6 +708,25 @@ class PointsTo:
                 elems |= self.getfield(o, ELEM if o.kind == "list" else None)
             for tt in target.elts:
                 self._assign(tt.value if isinstance(tt, ast.Starred) else tt, elems | objs, fn, mod, value, node)
+
+    def _table_loop(self, n, fn, mod):
+        """for a, b in ((x1, y1), (x2, y2)) over a literal table (directly or through a local bound once): column by column."""
+        if not isinstance(n.target, (ast.Tuple, ast.List)) or any(isinstance(t, ast.Starred) for t in n.target.elts):
+            return False
+        table = n.iter
+        if isinstance(table, ast.Name) and fn is not None:
+            bl = self.res.bindings(fn).get(table.id, [])
+            if len(bl) == 1 and bl[0][0] == "value":
+                table = bl[0][1]
+        if not (isinstance(table, (ast.Tuple, ast.List)) and table.elts
+                and all(isinstance(r, (ast.Tuple, ast.List)) and len(r.elts) == len(n.target.elts) and not any(isinstance(y, ast.Starred) for y in r.elts) for r in table.elts)):
+            return False
+        for i, t in enumerate(n.target.elts):
+            objs = set()
+            for r in table.elts:
+                objs |= self.pts(r.elts[i], fn, mod)
+            self._assign(t, objs, fn, mod)
+        return True
 
     def _tuple_positions(self, tup, fn):
         """[('expr', node) | ('star', (list display, k))] per position of a tuple display; `*name` is expanded when name is a
